@@ -155,10 +155,181 @@ SD_UPDATE = _sd_update()
 SUITE = Suite(SCHEMA, [TC, "dendropy.datamodel.treemodel._tree"], CONTRACTS + SD_UPDATE, executor_cls=TAExecutor)
 
 
+# ----------------------------------------------------------------------------- representation ownership (syntactic)
+LIST_FIELDS = ("_tree_split_bitmasks", "_tree_edge_lengths", "_tree_leafset_bitmasks", "_tree_weights")
+_COPYING = ("len", "zip", "enumerate", "list", "tuple", "sorted", "iter", "reversed", "sum", "max", "min", "any", "all", "set", "frozenset")
+
+
+def _fresh_list(e):
+    import ast
+    return (isinstance(e, (ast.List, ast.ListComp)) or
+            (isinstance(e, ast.Call) and isinstance(e.func, ast.Name) and e.func.id in ("list", "sorted")))
+
+
+def ownership_obligations(ctx):
+    """Every TreeArray owns its four per-tree lists: in the real source of class TreeArray a list field is only ever
+    assigned a fresh list, and a list field of ANY object is only used where its elements are read (receiver of a
+    method call, subscript, argument of extend()/len()/zip()/..., iterable, operand of `in`/comparison) -- so no two
+    collections share a list object, and growing one never grows another (the length model of the contracts above
+    relies on it)."""
+    import ast, time
+    from dpvc import frontend
+    t0 = time.time()
+    m = frontend.module(TC)
+    cls = [n for n in m.tree.body if isinstance(n, ast.ClassDef) and n.name == "TreeArray"][0]
+    parents = {}
+    for n in ast.walk(cls):
+        for ch in ast.iter_child_nodes(n):
+            parents[ch] = n
+    bad = []
+    count = 0
+    for n in ast.walk(cls):
+        if not (isinstance(n, ast.Attribute) and n.attr in LIST_FIELDS):
+            continue
+        count += 1
+        p = parents.get(n)
+        ok = False
+        if isinstance(n.ctx, ast.Store):
+            # target of an assignment: the value must be a fresh list
+            if isinstance(p, ast.Assign) and len(p.targets) == 1 and _fresh_list(p.value):
+                ok = True
+            elif isinstance(p, ast.Tuple) and isinstance(parents.get(p), ast.Assign) and isinstance(parents[p].value, ast.Tuple) \
+                    and len(parents[p].value.elts) == len(p.elts) and _fresh_list(parents[p].value.elts[p.elts.index(n)]):
+                ok = True
+        elif isinstance(n.ctx, ast.Del):
+            ok = True
+        elif isinstance(p, ast.Attribute) and p.value is n:      # X.F.method / attribute of the list
+            ok = True
+        elif isinstance(p, ast.Subscript) and p.value is n:      # X.F[...]
+            ok = True
+        elif isinstance(p, ast.Call) and n in p.args and isinstance(p.func, ast.Name) and p.func.id in _COPYING:
+            ok = True
+        elif isinstance(p, ast.Call) and n in p.args and isinstance(p.func, ast.Attribute) and p.func.attr == "extend" \
+                and isinstance(p.func.value, ast.Attribute) and p.func.value.attr in LIST_FIELDS:
+            ok = True                                            # other list .extend(X.F): copies the elements
+        elif isinstance(p, (ast.For, ast.comprehension)) and p.iter is n:
+            ok = True
+        elif isinstance(p, ast.Compare):
+            ok = True
+        elif isinstance(p, (ast.If, ast.While, ast.BoolOp, ast.UnaryOp, ast.Assert, ast.IfExp)) and not (isinstance(p, ast.IfExp) and p.test is not n):
+            ok = True                                            # truth value only
+        if not ok:
+            bad.append("line %d: %s" % (n.lineno, ast.unparse(p if p is not None else n)[:120]))
+    name = "TreeArray.owns-its-per-tree-lists"
+    if count == 0:
+        ctx.obligation(name, "error", "effects", time.time() - t0, TC + ":TreeArray", detail="no use of the list fields found in class TreeArray")
+        ctx.checker_failure("C06 ownership: no use of the per-tree list fields found")
+        return
+    ctx.obligation(name, "proved" if not bad else "refuted", "effects", time.time() - t0, TC + ":TreeArray",
+                   detail=None if not bad else "; ".join(bad[:4]))
+    if bad:
+        w = _alias_witness()
+        if w:
+            ctx.fail(name, dict(key="TreeArray.alias|" + w[0], history=w[0], outcome=w[1], sites=bad[:6], replay_kind="alias"),
+                     detail="%s: %s (list field used outside an element-reading position at %s)" % (w[0], w[1], bad[0]), kind="T1")
+        else:
+            ctx.fail(name, dict(key="site:" + bad[0], sites=bad[:6], native="no two collections sharing a list found by the native search"),
+                     detail="a per-tree list may escape or be adopted: " + bad[0], kind="T1", no_input=True)
+
+
+def _alias_witness():
+    """native search: two distinct TreeArrays that share a per-tree list object after some public operation"""
+    import dendropy
+    from dpvc import replay_c06
+    ns = dendropy.TaxonNamespace(["A", "B", "C", "D"])
+    st = (True, True, True)
+
+    def shared(arrs):
+        for i, (na, a) in enumerate(arrs):
+            for nb, b in arrs[i + 1:]:
+                if a is b:
+                    continue
+                for f in LIST_FIELDS:
+                    if getattr(a, f) is getattr(b, f):
+                        return "%s and %s share one %s list" % (na, nb, f)
+        return None
+    for n0, n1 in ((0, 1), (0, 0), (1, 1), (1, 0), (0, 2), (2, 1)):
+        for op in ("update", "extend", "iadd", "add", "radd"):
+            a = replay_c06._mk(n0, True, True, st, ns)
+            b = replay_c06._mk(n1, True, True, st, ns)
+            arrs = [("self", a), ("other", b)]
+            try:
+                if op == "update":
+                    a.update(b)
+                elif op == "extend":
+                    a.extend(b)
+                elif op == "iadd":
+                    a += b
+                elif op == "add":
+                    arrs.append(("self + other", a + b))
+                else:
+                    arrs.append(("other + self", b + a))
+            except Exception:
+                continue
+            r = shared(arrs)
+            if r:
+                return ("self with %d tree(s), other with %d, %s" % (n0, n1, op), r)
+    return None
+
+
+def queue_protocol_obligations(ctx):
+    """multiprocessing.Queue is an external dependency whose documented contract says that get_nowait() / empty() may
+    report an empty queue while items put on it are still in transit.  A worker must therefore not take 'empty' for
+    'no work left': the real source of dendropy.application.sumtrees polls no queue (get_nowait, empty, get(False))."""
+    import ast, time
+    from dpvc import frontend
+    t0 = time.time()
+    mn = "dendropy.application.sumtrees"
+    m = frontend.module(mn)
+    bad, gets = [], 0
+    for n in ast.walk(m.tree):
+        if not (isinstance(n, ast.Call) and isinstance(n.func, ast.Attribute)):
+            continue
+        recv = ast.unparse(n.func.value)
+        if "queue" not in recv.lower():
+            continue
+        if n.func.attr == "get":
+            gets += 1
+            nonblocking = (n.args and isinstance(n.args[0], ast.Constant) and n.args[0].value is False) or \
+                any(k.arg == "block" and isinstance(k.value, ast.Constant) and k.value.value is False for k in n.keywords) or \
+                any(k.arg == "timeout" for k in n.keywords) or len(n.args) > 1
+            if nonblocking:
+                bad.append("line %d: %s" % (n.lineno, ast.unparse(n)))
+        elif n.func.attr in ("get_nowait", "empty", "qsize", "full"):
+            bad.append("line %d: %s" % (n.lineno, ast.unparse(n)))
+    name = "sumtrees.end-of-work-not-inferred-from-an-empty-queue"
+    if gets == 0 and not bad:
+        ctx.obligation(name, "error", "effects", time.time() - t0, mn, detail="no queue read found in sumtrees")
+        ctx.checker_failure("C06 queue protocol: no queue read found")
+        return
+    ctx.obligation(name, "proved" if not bad else "refuted", "effects", time.time() - t0, mn, detail=None if not bad else "; ".join(bad[:4]))
+    if bad:
+        w = None
+        try:
+            from bounded import C06 as B
+            case = dict(what="sumtrees-sched", rooted=True, pool="plain", weights="none", settings={}, files=[[0, 1], [2], [3, 4]], annotated=True,
+                        force=None, nproc=2, assign=[0, 1, 0], arrival=[0, 1], log_frequency=0, tree_offset=0, lag=True)
+            fails = B._sumtrees_sched(case)
+            if fails:
+                w = (case, fails[0])
+        except Exception as e:  # noqa
+            w = None
+        if w:
+            ctx.fail(name, dict(key="sumtrees-sched|lag|" + bad[0], case=w[0], outcome=list(w[1]), sites=bad[:4], replay_kind="queue"),
+                     detail="2 workers whose first poll finds the queue (still) empty: %s: %s (%s)" % (w[1][0], w[1][1], bad[0]), kind="T1")
+        else:
+            ctx.fail(name, dict(key="site:" + bad[0], sites=bad[:4]), detail="a queue is polled: " + bad[0], kind="T1", no_input=True)
+
+
 def t1(ctx):
+    ownership_obligations(ctx)
+    queue_protocol_obligations(ctx)
     ctx.assume("C06/T1: Python lists of TreeArray are modelled by their length only (contents abstracted); SplitDistribution.update / "
-               "count_splits_on_tree are abstracted calls (their arithmetic is C05); OS scheduling and multiprocessing.Queue are out of reach "
-               "(the schedule is an arbitrary arrival order of update() calls, which is what the update contract quantifies over)")
+               "count_splits_on_tree are abstracted calls (their arithmetic is C05); that no two collections share a list object is the syntactic "
+               "obligation TreeArray.owns-its-per-tree-lists; OS scheduling is out of reach and multiprocessing.Queue is ASSUMED to its documented contract "
+               "(blocking get() delivers every item of one producer once and in order; polls may report empty spuriously -- hence the obligation "
+               "sumtrees.end-of-work-not-inferred-from-an-empty-queue); the schedule is an arbitrary arrival order of update() calls, which is what "
+               "the update contract quantifies over")
     from dpvc import replay_c06
     for c in CONTRACTS:
         verify_contract(ctx, SUITE, c, sentinels=False, replay=replay_c06.replay_treearray)
